@@ -68,7 +68,7 @@ func universe() []namedVal {
 	tm := time.Date(2020, 2, 29, 13, 4, 5, 0, time.UTC)
 	return []namedVal{
 		{"nil", nil}, {"mainname", "main"}, {"bname", "b"},
-		{"sEmpty", ""}, {"sAbc", "abc"}, {"sBadUtf8", "\xff\xfea\xc3"}, {"sMulti", "é€𝄞"}, {"sNum", "12"}, {"sFloat", "1.5"}, {"sCsv", "a,b"}, {"sColon", "1:2"}, {"sHtml", "<b>&</b>"}, {"sPct", "%d%s%!"}, {"sLong", string(make([]byte, 300))},
+		{"sEmpty", ""}, {"sAbc", "abc"}, {"sBadUtf8", "\xff\xfea\xc3"}, {"sMulti", "é€𝄞"}, {"sNum", "12"}, {"sFloat", "1.5"}, {"sCsv", "a,b"}, {"sColon", "1:2"}, {"sHtml", "<b>&</b>"}, {"sPct", "%d%s%!"}, {"sLt", "1<2"}, {"sLtEnd", "one two <"}, {"sLtOpen", "a <b"}, {"sAmp", "a &amp b &"}, {"sTagOpen", "<a href=\"x"}, {"sClose", "</"}, {"sCmt", "<!-- x"}, {"sGt", "a > b >"}, {"sNL", "l1\nl2\r\n\nl4"}, {"sLong", string(make([]byte, 300))},
 		{"i0", 0}, {"i1", 1}, {"iNeg", -1}, {"iBig", 99999}, {"iMax", int64(math.MaxInt64)}, {"iMin", int64(math.MinInt64)}, {"i8", int8(-128)}, {"u8", uint8(255)}, {"uMax", uint64(math.MaxUint64)}, {"u0", uint(0)}, {"i32", int32(7)},
 		{"f0", 0.0}, {"f15", 1.5}, {"fHalf", 0.25}, {"fNegHalf", -0.5}, {"f32Half", float32(0.5)}, {"sFrac", "0.9"}, {"sNegFrac", "-0.4"}, {"fNeg0", math.Copysign(0, -1)}, {"fNaN", math.NaN()}, {"fInf", math.Inf(1)}, {"fNInf", math.Inf(-1)}, {"fMax", math.MaxFloat64}, {"f32", float32(1.5)}, {"fHuge", 1e300},
 		{"bT", true}, {"bF", false},
@@ -89,6 +89,7 @@ func universe() []namedVal {
 		// callables that panic (string, error value, custom value) and one whose typed pointer parameter may get nil
 		{"fnPanicS", func() string { panic("panic with a plain string") }}, {"fnPanicE", func() string { panic(errors.New("panic with an error value")) }},
 		{"fnPanicC", func(i int) string { panic(struct{ Code int }{i}) }}, {"fnTakesPtr", func(p *inner) string { return fmt.Sprint(p == nil) }},
+		{"fnNilValue", func() *pongo2.Value { return nil }}, {"fnNilValueErr", func() (*pongo2.Value, error) { return nil, nil }},
 		{"fnVarS", func(p string, xs ...string) string { return p }}, {"fnVarV", func(xs ...*pongo2.Value) int { return len(xs) }}, {"fnVarA", func(xs ...any) int { return len(xs) }},
 	}
 }
